@@ -271,6 +271,7 @@ type c17World struct {
 	ann     map[string]*c17Live    // "src/pid/rd/pfx" -> live announcement from a PE source
 	ceAnn   map[string]*c17Live    // "ce/pfx"
 	green   bool
+	shared  map[string]bool // "ce/prefix": imported under several RDs since the CE last held the right route
 	policy  bool // a global import policy that modifies every route (adds a community): the table holds clones
 	cloneID int
 }
@@ -315,7 +316,7 @@ func c17PfxIdx(s string) int {
 }
 
 func c17NewWorld(t testing.TB, o *vOut, policy ...bool) *c17World {
-	cw := &c17World{w: newVWorld(t, 65000, "10.255.0.1"), o: o, ann: map[string]*c17Live{}, ceAnn: map[string]*c17Live{}, cloneID: 100000}
+	cw := &c17World{w: newVWorld(t, 65000, "10.255.0.1"), o: o, ann: map[string]*c17Live{}, ceAnn: map[string]*c17Live{}, cloneID: 100000, shared: map[string]bool{}}
 	w := cw.w
 	if len(policy) > 0 && policy[0] {
 		cw.policy = true
@@ -615,22 +616,79 @@ func (cw *c17World) checkViews(after string, hist *[]string) {
 			continue
 		}
 		v := cw.vrfs[cw.ceVrf[i]]
-		want := map[int]int{}
+		// The VRF's view of a prefix: the importable best paths of ALL VPN destinations (rd, prefix),
+		// of which the VRF neighbor is to hold the most preferred one (RFC 4364: one route per
+		// prefix in the VRF). cands[x] = (marker, LOCAL_PREF) per RD.
+		type cand struct {
+			marker int
+			lp     uint32
+		}
+		cands := map[int][]cand{}
 		for _, b := range bests {
 			if b.GetSource().Address == p.spec.addr {
 				continue
 			}
 			if cw.importable(v, b.GetExtCommunities()) {
 				vn := b.GetNlri().(*bgp.LabeledVPNIPAddrPrefix)
-				want[c17PfxIdx(vn.Prefix.String())] = int(vwMarker(b.GetPathAttrs()))
+				lp, _ := b.GetLocalPref()
+				x := c17PfxIdx(vn.Prefix.String())
+				cands[x] = append(cands[x], cand{int(vwMarker(b.GetPathAttrs())), lp})
 				cw.o.stat("ce_route_imported", 1)
 			} else {
 				cw.o.stat("ce_route_not_imported", 1)
 			}
 		}
-		if c17ViewStr(want) != c17ViewStr(cw.ceView[i]) {
-			cw.o.fail("vrf-ce-view", map[string]any{"after": after, "ce": i, "vrf": v.name, "holds": c17ViewStr(cw.ceView[i]), "entitled": c17ViewStr(want),
-				"history": append([]string{}, *hist...)})
+		fail := func(cls string, x int) {
+			cw.o.fail(cls, map[string]any{"after": after, "ce": i, "vrf": v.name, "prefix": c17Pfx[x], "holds": c17ViewStr(cw.ceView[i]),
+				"importable-routes (marker, local-pref) per rd": fmt.Sprint(cands[x]), "history": append([]string{}, *hist...)})
+		}
+		for x, held := range cw.ceView[i] {
+			if len(cands[x]) == 0 {
+				fail("vrf-ce-view", x)
+				_ = held
+			}
+		}
+		for x, cs := range cands {
+			held, ok := cw.ceView[i][x]
+			skey := fmt.Sprintf("%d/%d", i, x)
+			if len(cs) == 1 {
+				switch {
+				case ok && held == cs[0].marker:
+					delete(cw.shared, skey)
+				case !ok && cw.shared[skey]:
+					// known finding: the prefix was imported under several RDs, one of them went away
+					// (withdrawn, or replaced by a route that is not imported) and took the prefix with it
+					fail("vrf-ce-lost-route-with-other-rd", x)
+				default:
+					fail("vrf-ce-view", x)
+				}
+				continue
+			}
+			cw.shared[skey] = true
+			cw.o.stat("ce_prefix_under_several_rds", 1)
+			top := cs[0].lp
+			for _, c := range cs {
+				if c.lp > top {
+					top = c.lp
+				}
+			}
+			isCand, isBest := false, false
+			for _, c := range cs {
+				if ok && c.marker == held {
+					isCand = true
+					isBest = c.lp == top
+				}
+			}
+			switch {
+			case !ok:
+				// known finding: the withdrawal of ONE of the VPN destinations took the prefix away
+				fail("vrf-ce-lost-route-with-other-rd", x)
+			case !isCand:
+				fail("vrf-ce-view", x)
+			case !isBest:
+				// known finding: the last destination that changed wins, not the most preferred
+				fail("vrf-ce-not-best-among-rds", x)
+			}
 		}
 	}
 }
@@ -659,7 +717,7 @@ func (cw *c17World) do(ev c17Ev, hist *[]string) {
 			var x int
 			if m[0] == 'W' {
 				fmt.Sscanf(m, "W %d", &x)
-				if _, ok := cw.ceView[i][x]; !ok {
+				if _, ok := cw.ceView[i][x]; !ok && x != 0 { // prefix 0 is announced under two RDs
 					o.fail("vrf-ce-spurious-withdraw", map[string]any{"ce": i, "sent": m, "holds": c17ViewStr(cw.ceView[i]), "history": append([]string{}, *hist...)})
 				}
 			}
@@ -1038,7 +1096,11 @@ func c17GenEv(r *vRand, cw *c17World) c17Ev {
 			pid = r.pick(1, 1, 2, 0)
 		}
 		rd := 5 + r.intn(3)
-		return c17Ev{kind: "ann", peer: src, pid: pid, rd: rd, pfx: (rd-5)*2 + r.intn(2), lpr: r.intn(6), ecs: c17GenECs(r)}
+		pfx := (rd-5)*2 + r.intn(2)
+		if rd == 6 && r.chance(35) {
+			pfx = 0 // the dual-homed site: the same prefix under the RDs of two PEs
+		}
+		return c17Ev{kind: "ann", peer: src, pid: pid, rd: rd, pfx: pfx, lpr: r.intn(6), ecs: c17GenECs(r)}
 	case x < 45:
 		// withdraw something that is there
 		keys := make([]string, 0, len(cw.ann))
@@ -1166,6 +1228,28 @@ func c17CorpusSrv(t testing.TB, o *vOut) {
 		},
 	}
 	for _, c := range cases {
+		cw := c17NewWorld(t, o)
+		hist := []string{}
+		for _, ev := range c {
+			cw.do(ev, &hist)
+		}
+		cw.w.stop()
+		o.stat("corpus_cases", 1)
+	}
+	dual := [][]c17Ev{
+		// one prefix imported under two RDs (dual-homed site). Known findings vrf-ce-lost-route-with-other-rd /
+		// vrf-ce-not-best-among-rds: the fan-out works per VPN destination, the VRF neighbor has one key.
+		{{kind: "ann", peer: 0, rd: 5, pfx: 0, lpr: 3, ecs: ecs(X)}, {kind: "ann", peer: 1, rd: 6, pfx: 0, lpr: 1, ecs: ecs(X)}, // better, then worse
+			{kind: "wd", peer: 1, rd: 6, pfx: 0}}, // the worse one withdrawn: the CE must keep the prefix
+		{{kind: "ann", peer: 0, rd: 5, pfx: 0, lpr: 1, ecs: ecs(X)}, {kind: "ann", peer: 1, rd: 6, pfx: 0, lpr: 3, ecs: ecs(X)}, // worse, then better
+			{kind: "wd", peer: 1, rd: 6, pfx: 0}}, // the better one withdrawn: the CE must fall back to the other RD
+		{{kind: "ann", peer: 0, rd: 5, pfx: 0, lpr: 2, ecs: ecs(X)}, {kind: "ann", peer: 1, rd: 6, pfx: 0, lpr: 3, ecs: ecs(X)},
+			{kind: "ann", peer: 1, rd: 6, pfx: 0, lpr: 1, ecs: ecs(X)}, // replaced by a worse path: the other RD is now the best
+			{kind: "ann", peer: 1, rd: 6, pfx: 0, lpr: 4, ecs: ecs(X)}, // replaced by a better one
+			{kind: "ann", peer: 1, rd: 6, pfx: 0, lpr: 4, ecs: ecs(Z)}, // no longer imported: falls back?
+			{kind: "wd", peer: 0, rd: 5, pfx: 0}, {kind: "wd", peer: 1, rd: 6, pfx: 0}},
+	}
+	for _, c := range dual {
 		cw := c17NewWorld(t, o)
 		hist := []string{}
 		for _, ev := range c {
